@@ -1076,6 +1076,75 @@ theorem walk_trace_infield (q : Quant K) (pinned : Bool) (h : HF3 K) (aabb2 : Aa
 
 end infield
 
+/-! ## `None` before the walk is sound -/
+
+theorem walkLoop_ne_noBoxHit (step : St → Step) (n : Nat) (s : St) : walkLoop step n s ≠ .noBoxHit := by
+  induction n generalizing s with
+  | zero => intro hc; simp [walkLoop] at hc
+  | succ n ih =>
+    unfold walkLoop
+    split
+    · intro hc; cases hc
+    · intro hc; cases hc
+    · exact ih _
+
+/-- **The early `return Ok(None)` is sound**: when `cast_local_ray` on the Minkowski box answers `None` (`noBoxHit`), the moving box
+meets no in-field cell while overlapping the vertical range of the field at any time of `[0, max_time_of_impact]`. -/
+theorem walk_noBoxHit_sound (q : Quant K) (hq : LawfulQuant q) (h : HF3 K) (hi : 0 < h.ni) (hj : 0 < h.nj)
+    (hsx : 0 < h.scale.x) (hsz : 0 < h.scale.z)
+    (hgx : h.aabb.mins.x ≤ XL sq q h 0 ∧ XL sq q h h.nj ≤ h.aabb.maxs.x)
+    (hgz : h.aabb.mins.z ≤ ZL sq q h 0 ∧ ZL sq q h h.ni ≤ h.aabb.maxs.z)
+    (aabb2 : Aabb3 K) (hv2 : aabb2.mins.x ≤ aabb2.maxs.x ∧ aabb2.mins.y ≤ aabb2.maxs.y ∧ aabb2.mins.z ≤ aabb2.maxs.z)
+    (vel : V3 K) (maxToi : K) (hm0 : 0 ≤ maxToi) (hmb : maxToi ≤ @realMax K (fieldNum K sq)) (fuel : Nat) (pinned : Bool)
+    (hw : @walk K (fieldNum K sq) q pinned h aabb2 vel maxToi fuel = .noBoxHit)
+    (i j : Int) (t : K) (i0 : 0 ≤ i) (i1 : i < h.ni) (j0 : 0 ≤ j) (j1 : j < h.nj) (t0 : 0 ≤ t) (t1 : t ≤ maxToi)
+    (ox1 : aabb2.mins.x + t * vel.x < XL sq q h (j + 1)) (ox2 : XL sq q h j < aabb2.maxs.x + t * vel.x)
+    (oz1 : aabb2.mins.z + t * vel.z < ZL sq q h (i + 1)) (oz2 : ZL sq q h i < aabb2.maxs.z + t * vel.z)
+    (oy1 : aabb2.mins.y + t * vel.y < h.aabb.maxs.y) (oy2 : h.aabb.mins.y < aabb2.maxs.y + t * vel.y) : False := by
+  letI := fieldNum K sq
+  have hLx := XL_lines sq q hq h hj hsx
+  have hLz := ZL_lines sq q hq h hi hsz
+  have hcast : Aabb.castLocalRay (realMax : K)
+      ⟨V3.sub h.aabb.mins (Aabb3.halfExtents aabb2), V3.add h.aabb.maxs (Aabb3.halfExtents aabb2)⟩
+      ⟨Aabb3.center aabb2, vel⟩ maxToi true = none := by
+    unfold walk at hw
+    split at hw
+    · rename_i hinit
+      unfold walkInit at hinit
+      simp only at hinit
+      split at hinit
+      · rename_i hc; exact hc
+      · cases hinit
+    · split at hw
+      · cases hw
+      · exact absurd hw (walkLoop_ne_noBoxHit _ _ _)
+  have hwx : (Aabb3.halfExtents aabb2).x = (aabb2.maxs.x - aabb2.mins.x) * (1 / 2) := by
+    simp only [Aabb3.halfExtents, V3.sub, V3.smul, lit_half6]
+  have hwy : (Aabb3.halfExtents aabb2).y = (aabb2.maxs.y - aabb2.mins.y) * (1 / 2) := by
+    simp only [Aabb3.halfExtents, V3.sub, V3.smul, lit_half6]
+  have hwz : (Aabb3.halfExtents aabb2).z = (aabb2.maxs.z - aabb2.mins.z) * (1 / 2) := by
+    simp only [Aabb3.halfExtents, V3.sub, V3.smul, lit_half6]
+  have hcx : (Aabb3.center aabb2).x = (aabb2.mins.x + aabb2.maxs.x) * (1 / 2) := by
+    simp only [Aabb3.center, V3.center, V3.add, V3.smul, lit_half6]
+  have hcy : (Aabb3.center aabb2).y = (aabb2.mins.y + aabb2.maxs.y) * (1 / 2) := by
+    simp only [Aabb3.center, V3.center, V3.add, V3.smul, lit_half6]
+  have hcz : (Aabb3.center aabb2).z = (aabb2.mins.z + aabb2.maxs.z) * (1 / 2) := by
+    simp only [Aabb3.center, V3.center, V3.add, V3.smul, lit_half6]
+  have gx0 := hLx.mono 0 h.nj (by omega)
+  have gz0 := hLz.mono 0 h.ni (by omega)
+  have hv : C04.AabbValid (⟨V3.sub h.aabb.mins (Aabb3.halfExtents aabb2), V3.add h.aabb.maxs (Aabb3.halfExtents aabb2)⟩ : Aabb K) := by
+    simp only [C04.AabbValid, V3.sub, V3.add, hwx, hwy, hwz]
+    refine ⟨?_, ?_, ?_⟩ <;> linarith [hv2.1, hv2.2.1, hv2.2.2, hgx.1, hgx.2, hgz.1, hgz.2]
+  have fh := C04.aabb_cast_solid_firstHit sq (@realMax K (fieldNum K sq)) _ ⟨Aabb3.center aabb2, vel⟩ maxToi hv hm0 hmb
+  rw [hcast] at fh
+  apply fh t t0 t1
+  have jx1 := hLx.mono 0 j j0
+  have jx2 := hLx.mono (j + 1) h.nj (by omega)
+  have iz1 := hLz.mono 0 i i0
+  have iz2 := hLz.mono (i + 1) h.ni (by omega)
+  simp only [C04.AabbMem, C04.rayPt, Ray3.pointAt, V3.add, V3.sub, V3.smul, hwx, hwy, hwz, hcx, hcy, hcz]
+  refine ⟨⟨?_, ?_⟩, ⟨?_, ?_⟩, ⟨?_, ?_⟩⟩ <;> linarith [hgx.1, hgx.2, hgz.1, hgz.2]
+
 /-! ## the 3-D cast returns the first impact over ALL triangles -/
 
 /-- the triangles `hit_triangles` hands to the part cast along a trace of cells: both triangles of each cell, in order -/
